@@ -28,6 +28,9 @@ def run(ck):
         g = dict(g)
         g["calls"] = [pcall(a, "list", extra=False) for a in FIT4]
         groups.append(g)
+    for g in scope.q_scope(ck, 7 if q else 8, 2, [3, 4]):      # "coarse": longer arrival sequences over the values 0..2
+        if len(g["vals"]) >= 6:
+            g = dict(g); g["calls"] = [pcall(a, "list", extra=False) for a in FIT4]; groups.append(g)
     for g in scope.q_scope(ck, 4, 8, [8, 12]):
         if max(g["vals"]) <= g["C"]:
             g = dict(g); g["den"] = 8
